@@ -119,6 +119,32 @@ fn make_gate(job: &Value, turns: &Arc<Turns>) -> Option<Gate> {
                 }
             }))
         }
+        // hold back the state feedback of a loop for the head replicas of one host: the other hosts
+        // start the next round first and their data overtakes the state broadcast (C10 schedules,
+        // derived from the counterexample of spec/mc/Iteration_nowait.cfg)
+        "delay_state" => {
+            let host = g["host"].as_u64().unwrap_or(1).to_string();
+            let ms = g["ms"].as_u64().unwrap_or(30);
+            Some(Arc::new(move |ev: &Value| {
+                if ev["ev"] == "recv" {
+                    let at = ev["at"].as_str().unwrap_or("");
+                    let h = at.split('.').nth(1).unwrap_or("");
+                    if h == host {
+                        let is_state = ev["els"]
+                            .as_array()
+                            .and_then(|a| a.first())
+                            .and_then(|e| e["v"].as_array())
+                            .and_then(|v| v.first())
+                            .and_then(|x| x.as_str())
+                            .map(|s| s == "Continue" || s == "Finished")
+                            .unwrap_or(false);
+                        if is_state {
+                            std::thread::sleep(Duration::from_millis(ms));
+                        }
+                    }
+                }
+            }))
+        }
         _ => None,
     }
 }
